@@ -66,6 +66,8 @@ pub enum MProp {
     /// than once in one clone_multiple call); resolved from the real DOM.
     RefAny(Vec<NodeId>),
     Uid(u32, u32, i64),
+    /// A value that came out of a decoder: present, but never compared.
+    Opaque,
 }
 
 #[derive(Clone, Debug)]
@@ -394,6 +396,8 @@ struct World {
     seen_refs: BTreeSet<u128>,
     /// Every UniqueId value that was ever generated by the library in this run.
     generated_uids: BTreeSet<(u32, u32, i64)>,
+    /// Nodes created by clone operations (their correctness is C11's business).
+    clone_created: BTreeSet<NodeId>,
 }
 
 fn ref_key(r: Ref) -> u128 {
@@ -623,12 +627,13 @@ impl DomSim {
                 model = probe;
                 if let DKind::EncodeDecode { dom, .. } | DKind::DecodeDupFile { dom, .. } = &op.kind {
                     let d = *dom as usize;
-                    let root = model.roots[d];
-                    let doomed: Vec<NodeId> = model.dom_nodes(d).into_iter().filter(|n| *n != root).collect();
-                    for n in doomed {
+                    for n in model.dom_nodes(d) {
                         model.nodes.remove(&n);
                     }
-                    model.nodes.get_mut(&root).unwrap().children.clear();
+                    // The executor gives the decoded root the first id of this operation.
+                    let root = op.serial * ID_STRIDE;
+                    model.nodes.insert(root, MNode { dom: d, parent: None, children: vec![], name: "DataModel".into(), class: "DataModel".into(), props: BTreeMap::new() });
+                    model.roots[d] = root;
                 }
                 ops.push(op);
                 serial += 1;
@@ -680,6 +685,7 @@ impl DomSim {
             MProp::Val(v) => spec::canon_variant(&mut s, &spec::value_of(v, &|t| DomSim::resolve(world, t)), &rmap),
             MProp::Ref(t) => spec::canon_variant(&mut s, &Variant::Ref(DomSim::resolve(world, t)), &rmap),
             MProp::Uid(a, b, c) => spec::canon_variant(&mut s, &Variant::UniqueId(UniqueId::new(*a, *b, *c)), &rmap),
+            MProp::Opaque => s.push_str("<opaque>"),
             MProp::RefAny(list) => {
                 s.push_str("ref:<any copy of the multiply-cloned target: ");
                 for id in list {
@@ -722,8 +728,11 @@ impl DomSim {
     }
 
     /// C10: real == model, for every DOM.
-    fn compare_with_model(world: &World, uid_mode: bool) -> Option<String> {
+    fn compare_with_model(world: &World, uid_mode: bool, only: Option<&BTreeSet<NodeId>>, skip: Option<&BTreeSet<NodeId>>) -> Option<String> {
         for (id, m) in &world.model.nodes {
+            if only.map(|o| !o.contains(id)).unwrap_or(false) || skip.map(|o| o.contains(id)).unwrap_or(false) {
+                continue;
+            }
             let r = match world.ref_of.get(id) {
                 Some(r) => *r,
                 None => return Some(format!("node {} has no referent bound", id)),
@@ -763,7 +772,7 @@ impl DomSim {
                 return Some(format!("node {} ({}): property names {:?} but the model says {:?}", id, m.name, real_keys, model_keys));
             }
             for (k, p) in &m.props {
-                if uid_mode && k == "UniqueId" {
+                if (uid_mode && k == "UniqueId") || matches!(p, MProp::Opaque) {
                     continue;
                 }
                 let real = inst.properties.get(&rbx_dom_weak::ustr(k)).unwrap();
@@ -874,6 +883,110 @@ impl DomSim {
         None
     }
 
+    /// C11, judged on the real DOMs alone: every returned copy is parentless,
+    /// uses only referents that did not exist before, matches its original in
+    /// shape, order, names, classes and values, and every Ref property follows
+    /// the three-way rule evaluated against the destination DOM.
+    fn check_clone_real(world: &World, src: usize, dest: usize, orig_roots: &[Ref], copies: &[Ref], uid_mode: bool, ctx: &mut RunCtx) -> Option<(String, String)> {
+        if orig_roots.len() != copies.len() {
+            return Some(("clone|wrong-number-of-roots".into(), format!("returned {} referents for {} subtrees", copies.len(), orig_roots.len())));
+        }
+        let sdom = &world.doms[src];
+        let ddom = &world.doms[dest];
+        let mut pairs: Vec<(Ref, Ref)> = Vec::new();
+        let mut map: BTreeMap<u128, Vec<Ref>> = BTreeMap::new();
+        for (o_root, c_root) in orig_roots.iter().zip(copies.iter()) {
+            match ddom.get_by_ref(*c_root) {
+                None => return Some(("clone|copy-missing-from-destination".into(), "the returned referent cannot be looked up in the destination".into())),
+                Some(i) => {
+                    if i.parent().is_some() {
+                        return Some(("clone|root-has-parent".into(), "the returned copy has a parent".into()));
+                    }
+                }
+            }
+            let mut stack = vec![(*o_root, *c_root)];
+            let mut guard = 0;
+            while let Some((o, c)) = stack.pop() {
+                guard += 1;
+                if guard > 100_000 {
+                    return Some(("clone|shape-differs".into(), "the copy does not terminate".into()));
+                }
+                let oi = match sdom.get_by_ref(o) {
+                    Some(i) => i,
+                    None => return None, // source itself is broken: not this oracle's business
+                };
+                let ci = match ddom.get_by_ref(c) {
+                    Some(i) => i,
+                    None => return Some(("clone|copy-missing-from-destination".into(), format!("a copy below {} cannot be looked up in the destination", oi.name))),
+                };
+                if world.seen_refs.contains(&ref_key(c)) {
+                    return Some(("clone|referent-not-fresh".into(), format!("the copy of {} re-uses a referent that already existed", oi.name)));
+                }
+                if oi.name != ci.name || oi.class != ci.class {
+                    return Some(("clone|name-or-class-differs".into(), format!("copy is {:?}/{:?}, original {:?}/{:?}", ci.name, ci.class.as_str(), oi.name, oi.class.as_str())));
+                }
+                if oi.children().len() != ci.children().len() {
+                    return Some(("clone|shape-differs".into(), format!("the copy of {} has {} children, the original has {}", oi.name, ci.children().len(), oi.children().len())));
+                }
+                pairs.push((o, c));
+                map.entry(ref_key(o)).or_default().push(c);
+                for (oc, cc) in oi.children().iter().zip(ci.children().iter()).rev() {
+                    stack.push((*oc, *cc));
+                }
+            }
+        }
+        for (o, c) in &pairs {
+            let oi = sdom.get_by_ref(*o).unwrap();
+            let ci = ddom.get_by_ref(*c).unwrap();
+            let mut ok: Vec<&str> = oi.properties.keys().map(|k| k.as_str()).collect();
+            let mut ck: Vec<&str> = ci.properties.keys().map(|k| k.as_str()).collect();
+            ok.sort();
+            ck.sort();
+            if ok != ck {
+                return Some(("clone|property-set-differs".into(), format!("copy of {} has properties {:?}, original {:?}", oi.name, ck, ok)));
+            }
+            for (k, ov) in oi.properties.iter() {
+                if uid_mode && k.as_str() == "UniqueId" {
+                    continue;
+                }
+                let cv = ci.properties.get(k).unwrap();
+                if let Variant::Ref(v) = ov {
+                    let got = match cv {
+                        Variant::Ref(g) => *g,
+                        _ => return Some(("clone|property-value-differs".into(), format!("property {} of the copy of {} is no longer a Ref", k, oi.name))),
+                    };
+                    if v.is_none() {
+                        if got.is_some() {
+                            return Some(("clone|ref-should-be-null".into(), format!("null Ref {} of {} became {}", k, oi.name, got)));
+                        }
+                    } else if let Some(cands) = map.get(&ref_key(*v)) {
+                        ctx.count("probe:clone_ref_inside_clone_set");
+                        if !cands.contains(&got) {
+                            return Some(("clone|ref-into-cloned-set-not-rewritten".into(), format!("property {} of the copy of {} is {} but should point at the copy of its target ({})", k, oi.name, got, cands.iter().map(|r| r.to_string()).collect::<Vec<_>>().join(" or "))));
+                        }
+                    } else if ddom.get_by_ref(*v).is_some() {
+                        ctx.count("probe:clone_ref_to_instance_in_destination_outside_clone_set");
+                        if got != *v {
+                            return Some(("clone|ref-to-instance-in-destination-not-kept".into(), format!("property {} of the copy of {} is {} but the destination contains its target {}, so it should be kept", k, oi.name, got, v)));
+                        }
+                    } else {
+                        ctx.count("probe:clone_ref_to_instance_absent_from_destination");
+                        if got.is_some() {
+                            return Some(("clone|ref-should-be-null".into(), format!("property {} of the copy of {} is {} but its target does not exist in the destination, so it should be null", k, oi.name, got)));
+                        }
+                    }
+                } else {
+                    let a = Self::real_prop_text(ov);
+                    let b = Self::real_prop_text(cv);
+                    if a != b {
+                        return Some(("clone|property-value-differs".into(), format!("property {} of the copy of {} is {} but the original has {}", k, oi.name, b, a)));
+                    }
+                }
+            }
+        }
+        None
+    }
+
     /// Rebuilds the model of one DOM slot from the real DOM (after a decode).
     fn rebuild_slot(world: &mut World, d: usize, base: NodeId, origin: &str) -> Vec<NodeId> {
         let old: Vec<NodeId> = world.model.dom_nodes(d);
@@ -885,7 +998,10 @@ impl DomSim {
         let mut id_of: BTreeMap<u128, NodeId> = BTreeMap::new();
         let mut created = Vec::new();
         for (k, r) in order.iter().enumerate() {
-            let id = if k == 0 { d as NodeId } else { base + k as u32 };
+            // Node ids are never re-bound to another referent (Ref properties of
+            // older instances may still name the old root), so the new root gets a
+            // fresh id too.
+            let id = base + k as u32;
             id_of.insert(ref_key(*r), id);
             world.ref_of.insert(id, *r);
             world.seen_refs.insert(ref_key(*r));
@@ -897,8 +1013,8 @@ impl DomSim {
             for (k, v) in inst.properties.iter() {
                 let p = match v {
                     Variant::UniqueId(u) if k.as_str() == "UniqueId" => MProp::Uid(u.index(), u.time(), u.random()),
-                    // Other decoded values are opaque: they are never compared in uid mode.
-                    _ => MProp::Val(ValSpec::Bool(false)),
+                    // Other decoded values are opaque: their fidelity is C01/C02's question.
+                    _ => MProp::Opaque,
                 };
                 props.insert(k.to_string(), p);
             }
@@ -913,12 +1029,12 @@ impl DomSim {
                     props,
                 },
             );
-            if id != d as NodeId {
+            if inst.parent().is_some() {
                 created.push(id);
             }
         }
         world.model.origin[d] = origin.to_string();
-        world.model.roots[d] = d as NodeId;
+        world.model.roots[d] = base;
         created
     }
 
@@ -931,6 +1047,7 @@ impl DomSim {
             ref_of: BTreeMap::new(),
             seen_refs: BTreeSet::new(),
             generated_uids: BTreeSet::new(),
+            clone_created: BTreeSet::new(),
         };
         for d in 0..n_doms {
             let r = world.doms[d].root_ref();
@@ -1159,41 +1276,51 @@ impl DomSim {
             let origins: Vec<String> = world.model.origin.clone();
             let origin_of = |d: usize| origins[d].clone();
 
-            // Bind referents of clones by parallel traversal; C11 oracle.
+            // C11 oracle (real copy against real original), then bind the
+            // referents of the copies to model nodes by parallel traversal.
             if !eff.clone_roots.is_empty() {
                 cross = true;
                 let dest = eff.entering.as_ref().unwrap().0;
-                if returned.len() != eff.clone_roots.len() {
-                    if prop == "C11" {
-                        ctx.violate("clone|wrong-number-of-roots", format!("{} returned {} referents for {} subtrees", kind_name(&op.kind), returned.len(), eff.clone_roots.len()));
+                let src = src_dom_idx.unwrap();
+                let orig_ids: Vec<NodeId> = match &op.kind {
+                    DKind::CloneWithin { node } | DKind::CloneInto { node, .. } => vec![*node],
+                    DKind::CloneMulti { nodes, .. } => nodes.clone(),
+                    _ => vec![],
+                };
+                let orig_refs: Vec<Ref> = orig_ids.iter().map(|n| world.ref_of[n]).collect();
+                if prop == "C11" {
+                    if let Some((key, msg)) = Self::check_clone_real(&world, src, dest, &orig_refs, &returned, t.uid_mode, ctx) {
+                        ctx.violate(key, format!("{}: {}", kind_name(&op.kind), msg));
+                        return;
                     }
+                    if let Some(before) = &clone_src_before {
+                        if src != dest && *before != spec::canon_dom(&world.doms[src]) {
+                            ctx.violate("clone|source-modified", format!("{} changed the source DOM", kind_name(&op.kind)));
+                            return;
+                        }
+                    }
+                }
+                // Binding. A mismatch here (with the C11 oracle satisfied or not
+                // enabled) means the model and the real DOM have drifted apart
+                // because of something this check does not judge: the history
+                // ends without a verdict.
+                if returned.len() != eff.clone_roots.len() {
                     ctx.count("aborted_histories");
                     return;
                 }
                 for (root_id, root_ref) in eff.clone_roots.iter().zip(returned.iter()) {
-                    // parallel pre-order walk
                     let mut stack = vec![(*root_id, *root_ref)];
                     while let Some((mid, rref)) = stack.pop() {
                         let inst = match world.doms[dest].get_by_ref(rref) {
                             Some(i) => i,
                             None => {
-                                if prop == "C11" {
-                                    ctx.violate("clone|copy-missing-from-destination", format!("{}: a copied instance cannot be looked up in the destination", kind_name(&op.kind)));
-                                }
                                 ctx.count("aborted_histories");
                                 return;
                             }
                         };
-                        if prop == "C11" && world.seen_refs.contains(&ref_key(rref)) {
-                            ctx.violate("clone|referent-not-fresh", format!("{}: the copy of {} re-uses a referent that already existed", kind_name(&op.kind), inst.name));
-                            return;
-                        }
                         world.ref_of.insert(mid, rref);
                         let m = &world.model.nodes[&mid];
                         if inst.children().len() != m.children.len() {
-                            if prop == "C11" {
-                                ctx.violate("clone|shape-differs", format!("{}: the copy of {} has {} children, the original has {}", kind_name(&op.kind), m.name, inst.children().len(), m.children.len()));
-                            }
                             ctx.count("aborted_histories");
                             return;
                         }
@@ -1205,71 +1332,21 @@ impl DomSim {
                 for id in &eff.created {
                     let r = world.ref_of[id];
                     world.seen_refs.insert(ref_key(r));
+                    world.clone_created.insert(*id);
                 }
                 Self::resolve_ref_any(&mut world, &eff.created);
-                if prop == "C11" {
-                    for root_ref in &returned {
-                        if world.doms[dest].get_by_ref(*root_ref).map(|i| i.parent().is_some()).unwrap_or(false) {
-                            ctx.violate("clone|root-has-parent", format!("{}: the returned copy has a parent", kind_name(&op.kind)));
-                            return;
-                        }
+            }
+            if prop == "C11" || prop == "C12" {
+                // The model only supplies arguments and bookkeeping here. If it has
+                // drifted from the real DOMs (something C10 would report), stop
+                // without a verdict instead of blaming this property.
+                if let Some(msg) = Self::compare_with_model(&world, t.uid_mode || prop == "C12", None, None) {
+                    if std::env::var("RBXSIM_DEBUG_DRIFT").is_ok() {
+                        eprintln!("DRIFT after {}: {}", kind_name(&op.kind), msg);
                     }
-                    // copies: names, classes, child order, properties incl. the Ref rule
-                    for id in &eff.created {
-                        let m = &world.model.nodes[id];
-                        let inst = world.doms[dest].get_by_ref(world.ref_of[id]).unwrap();
-                        if inst.name != m.name || inst.class.as_str() != m.class {
-                            ctx.violate("clone|name-or-class-differs", format!("{}: copy is {:?}/{:?}, original {:?}/{:?}", kind_name(&op.kind), inst.name, inst.class.as_str(), m.name, m.class));
-                            return;
-                        }
-                        let want_children: Vec<Ref> = m.children.iter().map(|c| world.ref_of[c]).collect();
-                        if inst.children() != want_children.as_slice() {
-                            ctx.violate("clone|child-order-differs", format!("{}: children of the copy of {} are in another order", kind_name(&op.kind), m.name));
-                            return;
-                        }
-                        let mut real_keys: Vec<&str> = inst.properties.keys().map(|k| k.as_str()).collect();
-                        real_keys.sort();
-                        let model_keys: Vec<&str> = m.props.keys().map(|k| k.as_str()).collect();
-                        if real_keys != model_keys {
-                            ctx.violate("clone|property-set-differs", format!("{}: copy of {} has properties {:?}, original {:?}", kind_name(&op.kind), m.name, real_keys, model_keys));
-                            return;
-                        }
-                        for (k, p) in &m.props {
-                            if t.uid_mode && k == "UniqueId" {
-                                continue;
-                            }
-                            let real = inst.properties.get(&rbx_dom_weak::ustr(k)).unwrap();
-                            let a = Self::real_prop_text(real);
-                            let b = Self::expected_prop_text(&world, p);
-                            if a != b {
-                                let what = match p {
-                                    MProp::Ref(RefT::Null) => "clone|ref-should-be-null",
-                                    MProp::Ref(RefT::Node(x)) if eff.created.contains(x) => "clone|ref-into-cloned-set-not-rewritten",
-                                    MProp::Ref(_) => "clone|ref-to-instance-in-destination-not-kept",
-                                    MProp::RefAny(_) => "clone|ref-into-cloned-set-not-rewritten",
-                                    _ => "clone|property-value-differs",
-                                };
-                                ctx.violate(what, format!("{}: property {} of the copy of {} is {} but should be {}", kind_name(&op.kind), k, m.name, a, b));
-                                return;
-                            }
-                        }
-                        // probes
-                        for p in m.props.values() {
-                            if let MProp::Ref(RefT::Node(x)) = p {
-                                if !eff.created.contains(x) {
-                                    ctx.count("probe:clone_ref_to_instance_in_destination_outside_clone_set");
-                                } else {
-                                    ctx.count("probe:clone_ref_inside_clone_set");
-                                }
-                            }
-                        }
-                    }
-                    if let (Some(before), Some(s)) = (&clone_src_before, src_dom_idx) {
-                        if s != dest && *before != spec::canon_dom(&world.doms[s]) {
-                            ctx.violate("clone|source-modified", format!("{} changed the source DOM", kind_name(&op.kind)));
-                            return;
-                        }
-                    }
+                    ctx.count("aborted_histories");
+                    ctx.count("histories_ended_by_model_drift(C10's business)");
+                    return;
                 }
             }
             if let DKind::Insert { .. } = &op.kind {
@@ -1398,8 +1475,15 @@ impl DomSim {
 
             // ---- C10 / C09 ----
             if prop == "C10" {
-                if let Some(msg) = Self::compare_with_model(&world, t.uid_mode) {
+                // Instances created by clones are judged by C11; here they only
+                // end the history if they differ from the model.
+                if let Some(msg) = Self::compare_with_model(&world, t.uid_mode, None, Some(&world.clone_created)) {
                     ctx.violate(format!("effect|{}-differs-from-documented-effect", kind_name(&op.kind)), format!("after {}: {}", kind_name(&op.kind), msg));
+                    return;
+                }
+                if Self::compare_with_model(&world, t.uid_mode, Some(&world.clone_created), None).is_some() {
+                    ctx.count("aborted_histories");
+                    ctx.count("histories_ended_by_a_copy_that_differs_from_the_model(C11's business)");
                     return;
                 }
                 if let DKind::Transfer { .. } = &op.kind {
